@@ -265,10 +265,30 @@ func (s *c13Side) sync() bool {
 	}
 	select {
 	case <-s.barrier:
-		return true
 	case <-time.After(c13Watch):
 		return false
 	}
+	// the barrier's handler signals from inside handleReq: wait until the barrier's OWN per-ID lock
+	// entry is gone (only that key is looked at, so a leaked entry of another ID is not waited for)
+	deadline := time.Now().Add(c13Watch)
+	for s.mutexHasKey(int32(mid & 0xffff)) {
+		if time.Now().After(deadline) {
+			return false
+		}
+		time.Sleep(50 * time.Microsecond)
+	}
+	return true
+}
+
+// mutexHasKey reports whether msgIDMutex holds an entry for the message ID (private fields, read under the map's lock).
+func (s *c13Side) mutexHasKey(mid int32) bool {
+	mm := reflect.ValueOf(s.cc).Elem().FieldByName("msgIDMutex").Elem()
+	mlf := mm.FieldByName("ml")
+	ml := reflect.NewAt(mlf.Type(), unsafe.Pointer(mlf.UnsafeAddr())).Interface().(*sync.Mutex)
+	ml.Lock()
+	defer ml.Unlock()
+	v := mm.FieldByName("ma").MapIndex(reflect.ValueOf(mid))
+	return v.IsValid()
 }
 
 func c13MapLen(v reflect.Value) int { return v.Len() }
